@@ -110,7 +110,8 @@ def gen_case(rng: random.Random, cfg: str) -> dict:
             "stop_after": rng.randint(0, max(0, len(gated))),
             "delays": [rng.choice([0, 0.0005, 0.001, 0.002]) for _ in range(len(gated) + 4)],
             "inject_seed": rng.randrange(1 << 30),
-            "leave_with": rng.choice(["Exception", "BaseException"])}  # fmt: skip
+            "leave_with": rng.choice(["Exception", "BaseException"]),
+            "foreign_workers": [i for i in range(nthreads) if rng.random() < 0.25]}  # fmt: skip
 
 
 def execute(case: dict) -> dict:
@@ -365,8 +366,22 @@ def execute(case: dict) -> dict:
                     portal.start_task_soon(stopper)
 
                 portal_thread_names = [t for t in threading.enumerate() if "portal" in t.name]
-                threads = [threading.Thread(target=caller_thread, args=(calls,), daemon=True)
-                           for calls in case["threads"]]  # fmt: skip
+                def foreign_worker(calls: list) -> None:
+                    """the caller is an AnyIO worker thread of ANOTHER event loop: it has a
+                    thread-local loop token of its own, which must not be taken for the
+                    portal's"""
+                    import anyio as _anyio
+
+                    async def other_loop_main() -> None:
+                        await _anyio.to_thread.run_sync(caller_thread, calls)
+
+                    window("caller_is_worker_thread_of_another_loop")
+                    _anyio.run(other_loop_main)
+
+                foreign = set(case.get("foreign_workers", ()))
+                threads = [threading.Thread(target=foreign_worker if i in foreign else caller_thread,
+                                            args=(calls,), daemon=True)
+                           for i, calls in enumerate(case["threads"])]  # fmt: skip
                 cond = threading.Thread(target=conductor, daemon=True)
                 for t in threads:
                     t.start()
@@ -718,6 +733,14 @@ def _finish_direct(case: dict, out: dict, mon) -> dict:  # noqa: ANN001
 
 def all_cases(tier: str, seed: int):  # noqa: ANN201
     yield from direct_cases()
+    # every caller is a worker thread of a second event loop (fixed generator seed)
+    rf = random.Random(1515)
+    for cfg in ("asyncio", "uvloop"):
+        for _ in range(6):
+            case = gen_case(rf, cfg)
+            case["foreign_workers"] = list(range(len(case["threads"])))
+            yield case
+
     rng = random.Random(seed * 4253 + 15)
     for _ in range(2500 if tier == "thorough" else 160):
         for cfg in ("asyncio", "uvloop"):
@@ -765,6 +788,9 @@ def replay(case: dict, col) -> None:  # noqa: ANN001
 
 
 def finish(col, tier: str) -> None:  # noqa: ANN001
+    if not col.counters.get("window:caller_is_worker_thread_of_another_loop"):
+        col.inconclusive_because("deciding window never reached: caller_is_worker_thread_of_another_loop")
+
     for k in ("window:left_with_pending_tasks:wait", "window:left_with_pending_tasks:cancel_remaining",
               "window:future_cancelled_while_task_running", "exit:stop_midway", "inject:injections"):  # fmt: skip
         if not col.counters.get(k):
